@@ -136,6 +136,64 @@ def mdd_history(tid, seed, steps):
     return tr
 
 
+def mdd_big_history(tid, seed, target=320, tail=60):
+    """An MDD that grows past 256 nodes (CPython shares int objects only up to
+    256: node numbers beyond that are distinct objects with equal values), then
+    an ordinary history on it."""
+    rng = random.Random(seed)
+    names = ['x', 'y', 'z']
+    lv = [0, 1, 2]
+    rng.shuffle(lv)
+    dvars = {nm: dict(level=l, len=4) for nm, l in zip(names, lv)}
+    tr = MTrace(tid, dvars, seed)
+    m = tr.m
+    steps = 0
+    # growth: UNRECORDED (the ledger is kept), then one snapshot of the grown table
+    while len(m._succ) < target and steps < 3000:
+        steps += 1
+        held = sorted(tr.ext)
+        if len(held) < 2 or rng.random() < 0.45:
+            lvl = rng.randrange(3)
+            below = [u for u in list(m._succ) if u == 1 or m._succ[u][0] > lvl]
+            kids = [rng.choice(below) * rng.choice([1, -1]) for _ in range(4)]
+            r = m.find_or_add(lvl, *kids)
+        else:
+            g, u, v = (rng.choice(held) * rng.choice([1, -1]) for _ in range(3))
+            r = m.ite(g, u, v)
+        if abs(r) != 1 and len(tr.ext) < 40:
+            m.incref(r)
+            tr.ext[abs(r)] = tr.ext.get(abs(r), 0) + 1
+    high = [u for u in m._succ if u > 256]
+    for u in rng.sample(high, min(12, len(high))):
+        m.incref(u)
+        tr.ext[u] = tr.ext.get(u, 0) + 1
+    tr.emit('mdd.init', {}, 0, '', pre=1)
+    # now questions whose cofactors COINCIDE on high-numbered nodes: (g /\ h) \/ (~g /\ h) = h
+    big = [u for u in sorted(tr.ext) if u > 256]
+    for _ in range(tail):
+        if not big:
+            break
+        h = rng.choice(big) * rng.choice([1, -1])
+        g = rng.choice(sorted(tr.ext)) * rng.choice([1, -1])
+        k = rng.random()
+        if k < 0.4:
+            tr.call('mdd.ite', dict(g=g, u=h, v=h), lambda: m.ite(g, h, h), hold=True)
+        elif k < 0.7:
+            r1, e1 = tr.call('mdd.apply', dict(op='and', args=[g, h]), lambda: m.apply('and', g, h), hold=True)
+            r2, e2 = tr.call('mdd.apply', dict(op='and', args=[-g, h]), lambda: m.apply('and', -g, h), hold=True)
+            if not e1 and not e2 and r1 and r2:
+                tr.call('mdd.apply', dict(op='or', args=[r1, r2]), lambda: m.apply('or', r1, r2), hold=True)
+        else:
+            lvl = rng.randrange(3)
+            below = [u for u in big if m._succ[u][0] > lvl]
+            if below:
+                c = rng.choice(below) * rng.choice([1, -1])
+                kids = [c, c, c, c]
+                tr.call('mdd.find_or_add', dict(level=lvl, kids=kids),
+                        lambda: m.find_or_add(lvl, *kids), hold=True)
+    return tr
+
+
 def mdd_stream(tid, seed):
     """Keep results, drop operands, collect, re-use numbers: stale MDD ite table."""
     rng = random.Random(seed)
@@ -252,6 +310,13 @@ def c15_task(shard, tid0, seed, nhist, steps, nconv):
         if tid0 % 16 == 0 or True:
             samples.append(dict(kind='bdd_to_mdd', info=evs[0]['info'], dvars=evs[0]['dvars'], umap=evs[0]['umap'][:6]))
     return dict(shard=shard, traces=nhist + 1, events=nev, fingerprints=fps, samples=samples[:1])
+
+
+def big_task(shard, tid, seed, tail):
+    tr = mdd_big_history(tid, seed, 320, tail)
+    with open(shard, 'w') as f:
+        f.write(tr.dumps() + '\n')
+    return dict(shard=shard, traces=1, events=len(tr.events), fingerprints={('mdd_big', tid, seed)}, samples=[])
 
 
 # ================= S2 for the MDD model: paths of MC_MDD replayed into dd.mdd =================
